@@ -231,11 +231,12 @@ def Value.flatMarks (v : Value) : Bool := !v.unmark.isMarked
 `cty.NullVal(cty.DynamicPseudoType)`): no constructor gives it a known payload -/
 def Value.dynOK (v : Value) : Bool := !v.ty.isDyn || !v.isKnown || v.isNull
 
-/-- lengths are Go `int`s: a tuple type or a collection payload has at most
-`math.MaxInt` members -/
+/-- lengths are Go `int`s: a tuple type, an object type or a collection payload has
+at most `math.MaxInt` members -/
 def Value.lenFits (v : Value) : Bool :=
   (match v.ty with
    | .tuple es => decide ((es.length : Int) ≤ maxInt)
+   | .object ns _ _ => decide ((ns.length : Int) ≤ maxInt)
    | _ => true) &&
   (match Cov.possibleLen v.v.unmark1 with
    | some (_, h) => decide (h ≤ maxInt)
